@@ -225,9 +225,45 @@ fn prescribed_size(name: &str) -> Option<(usize, usize)> {
     })
 }
 
+/// a plateau: every solution has the same objective value (equal candidates at every step)
+pub struct Plateau;
+impl Problem for Plateau {
+    type Encoding = Vec<f64>;
+    type Objective = SingleObjective;
+    fn name(&self) -> &str { "Plateau" }
+}
+impl VectorProblem for Plateau {
+    type Element = f64;
+    fn dimension(&self) -> usize { 2 }
+}
+impl LimitedVectorProblem for Plateau {
+    fn domain(&self) -> Vec<std::ops::Range<f64>> { vec![-1.0..1.0; 2] }
+}
+impl ObjectiveFunction for Plateau {
+    fn objective(&self, _s: &Vec<f64>) -> SingleObjective { SingleObjective::try_from(3.0).unwrap() }
+}
+
 // @native-harness
 pub fn c16_native_whole_runs() {
     let mut failures = Vec::new();
+    // valid but unusual parameters: simulated annealing that cools to temperature 0 at once (alpha = 0 is admitted by
+    // GeometricCooling) on a plateau, where every candidate is exactly as good as the current solution
+    for seed in 0..3u64 {
+        let c = sa::real_sa::<Plateau>(sa::RealProblemParameters { t_0: 1.0, alpha: 0.0, deviation: 0.1 }, cond(10)).unwrap();
+        let prev = std::panic::take_hook();
+        std::panic::set_hook(Box::new(|_| {}));
+        let r = std::panic::catch_unwind(std::panic::AssertUnwindSafe(|| c.optimize_with(&Plateau, |state: &mut State<Plateau>| { state.insert_evaluator(Sequential::<Plateau>::new()); state.insert(Random::new(seed)); Ok(()) })));
+        std::panic::set_hook(prev);
+        let why = match r {
+            Err(p) => Some(format!("the run panicked: {}", p.downcast_ref::<String>().cloned().or_else(|| p.downcast_ref::<&str>().map(|s| s.to_string())).unwrap_or_default())),
+            Ok(Err(e)) => Some(format!("the run failed: {e:#}")),
+            Ok(Ok(state)) => if state.iterations() != 10 || state.populations().len() != 1 || state.populations().current().len() != 1 { Some(format!("{} iterations, {} populations at the end", state.iterations(), state.populations().len())) } else { None },
+        };
+        if let Some(why) = why {
+            let r = RunResult { name: "real_sa[alpha=0, plateau]", seed, error: None, invocations: 0, reported_evaluations: 0, min_returned: None, reported_best: None, stale: None, requested_iterations: 10, iterations: 0, final_stack: Vec::new() };
+            note(&mut failures, "runs-to-completion", &r, why);
+        }
+    }
     let runs = for_all_runs(&mut |r| {
         if let Some(e) = &r.error { note(&mut failures, "runs-to-completion", r, format!("the run failed: {e}")); return }
         if r.iterations != r.requested_iterations { note(&mut failures, "requested-iterations", r, format!("{} iterations performed, {} requested", r.iterations, r.requested_iterations)) }
